@@ -11,14 +11,22 @@ for d in "${DIFFS[@]}"; do
   [ -f "$d" ] || continue
   WT=$(mktemp -d /tmp/detect.XXXXXX)
   git -C /repo worktree add -q --detach "$WT" HEAD || { echo "worktree failed"; exit 2; }
-  if ! git -C "$WT" apply "$d" 2>/tmp/apply.$$.err; then echo "== $d: APPLY-FAILED: $(cat /tmp/apply.$$.err)"; git -C /repo worktree remove --force "$WT"; continue; fi
+  # a change written against an earlier commit of /repo (before a later fix: commit) is tried on HEAD first, then on
+  # HEAD~1, HEAD~2, ... : the check must catch it on the tree it was written for
+  base=HEAD; applied=0
+  for back in 0 1 2 3 4 5 6 7 8 9 10 11 12; do
+    git -C "$WT" checkout -q --detach "HEAD~$back" 2>/dev/null || break
+    if git -C "$WT" apply "$d" 2>/tmp/apply.$$.err; then applied=1; base="HEAD~$back"; break; fi
+    git -C "$WT" checkout -q --detach "$(git -C /repo rev-parse HEAD)"
+  done
+  if [ $applied -eq 0 ]; then echo "== $d: APPLY-FAILED: $(cat /tmp/apply.$$.err)"; git -C /repo worktree remove --force "$WT"; continue; fi
   pkgs=$(git -C "$WT" diff --name-only | grep '\.go$' | xargs -n1 dirname | sort -u | sed 's|^|./|' | tr '\n' ' ')
   if [ -z "${SKIPTESTS:-}" ] && [ -n "$pkgs" ]; then
     if (cd "$WT" && go test -vet=off -count=1 $pkgs >/tmp/detect_test.$$.log 2>&1); then t=tests-pass; else t=TESTS-FAIL; fi
   else t=tests-skipped; fi
   out=$(cd /verif && VERIF_REPO="$WT" ./check $ID --tier $TIER 2>&1); rc=$?
   git -C /repo worktree remove --force "$WT"; rm -rf "$WT"
-  echo "== $d: $t check-exit=$rc"
+  echo "== $d (on $base): $t check-exit=$rc"
   echo "$out" | grep -E "VIOLATION|class=|MACHINERY|KNOWN" | head -4
 done
 git -C /repo worktree prune
